@@ -9,7 +9,7 @@ CFG = dict(
     mix=dict(create=4, assign=4, assign0=2, remove=4, build=3, destroynow=1, lock=1, unlock=1, dump=1, latedep=1, latescn=1),
     corpus=[x for x in "C13".split(",")],
     n_quick=500, n_thorough=6000, len=(8, 45),
-    gen=dict(lock_bias=0.15, ndeps=3, letters='BCDFGH', latedep_held=True),
+    gen=dict(lock_bias=0.15, ndeps=3, letters='BCDFGH', latedep_held=True, reassign=True),
     what="random dependency graphs (chains, diamonds, cycles) declared up front; all four ways of gaining a component, immediate and deferred",
 )
 
